@@ -66,7 +66,7 @@ def dict_key_sites(fn: Func, dname: str) -> List[Tuple[ast.AST, ast.AST]]:
     return out
 
 
-LATER_RULES = " Later rules: (R18.7) module is absolute only at level 0; (R18.8) __import__('a.b') returns a; (R18.9) import a.b is used whenever a is; (R18.10) = C05 R5.5 for the tracing module; (R18.11) duplicates = same module, name and statement list; (R18.12) imports under try are never moved; (R18.15) a star import is removed as unused only when its export list can be determined, by a predicate that gives up wherever trace_origin does."
+LATER_RULES = " Later rules: (R18.7) module is absolute only at level 0; (R18.8) __import__('a.b') returns a; (R18.9) import a.b is used whenever a is; (R18.10) = C05 R5.5 for the tracing module; (R18.11) duplicates = same module, name and statement list; (R18.12) imports under try are never moved; (R18.15) a star import is removed as unused only when its export list can be determined, by a predicate that gives up wherever trace_origin does; (R18.16) import statements are reordered only after a test on the names they bind (known finding)."
 
 
 def check(prog: Program, tier: str) -> Result:
@@ -170,13 +170,14 @@ def check(prog: Program, tier: str) -> Result:
     _r18_12(prog, res)
     _r18_13(prog, res)
     _r18_15(prog, res)
+    _r18_16(prog, res)
     # R18.10: where a module comes from is a fact about the disk and sys.path NOW
     from . import c05 as _c05
     anchors = [f.key for f in prog.funcs.values() if f.mod.name == "tracing"]
     _c05.adopt_memo_rule(prog, res, "R18.10", anchors,
                          "import normalisation must hold for ANY layout of the imported packages: a memoised lookup answers for the layout of an earlier call "
                          "(another working directory, an edited or moved module), so star-imports are expanded to names the module no longer exports")
-    res.floors.update({"R18.1": 6, "R18.2": 2, "R18.4": 1, "R18.5": 1, "R18.10": 3, "R18.11": 2, "R18.12": 1, "R18.13": 3, "R18.14": 1, "R18.15": 3})
+    res.floors.update({"R18.1": 6, "R18.2": 2, "R18.4": 1, "R18.5": 1, "R18.10": 3, "R18.11": 2, "R18.12": 1, "R18.13": 3, "R18.14": 1, "R18.15": 3, "R18.16": 1})
     res.analysed["importfrom_constructions"] = n
     return res
 
@@ -330,6 +331,55 @@ def _r18_15(prog: Program, res: Result) -> None:
         res.decide(not lost, "R18.15", pred.loc(), pred.fq, f"{pred.node.name}() # gives up where reading the module fails ({len(wanted_exc)} exception class(es))",
                    f"{sorted(wanted_exc)} all answered with `cannot tell`" if not lost else
                    f"trace_origin gives up when reading the module raises {lost}, {pred.node.name}() does not: a star import from a module that cannot be read or parsed is removed")
+
+
+# ------------------------------------------------------------------------------------------------ R18.16
+def _r18_16(prog: Program, res: Result) -> None:
+    """Of two imports that bind the same name the LATER one wins, and what a star import binds is not known: the order of
+    such statements is part of the program.  The sorting rule reorders the statements of a block by a key that knows
+    nothing of what they bind.  Obligation: the place where a statement is replaced by another statement of the sorted
+    block is reached only after a test on the names the statements bind (some condition over `.asname` / `.name` of the
+    aliases of the block holds on the path)."""
+    fn = prog.funcs.get(("fixes", "_sort_import_statements"))
+    if fn is None:
+        raise AnalysisError("anchor fixes._sort_import_statements not found")
+    sorts = [c for c in prog.calls_in(fn) if norm(c.func) == "sorted" or (isinstance(c.func, ast.Attribute) and c.func.attr == "sort")]
+    if not sorts:
+        res.ok("R18.16", fn.loc(), fn.fq, "reordering of import statements", "the statements are not reordered here", trivial=True)
+        return
+    pa = PathAnalysis(prog, fn)
+    # locals that hold what the statements bind: derived (through assignments, loops, accumulation) from `.asname` / `.names`
+    import re as _re
+    from ..pathcond import atoms_of, plain
+    def about_names(e: ast.AST, known: Set[str]) -> bool:
+        return any((isinstance(x, ast.Attribute) and x.attr in ("asname", "names")) or (isinstance(x, ast.Name) and x.id in known) for x in ast.walk(e))
+    derived: Set[str] = set()
+    for _ in range(6):
+        before = len(derived)
+        for st in walk_own(fn.node):
+            if isinstance(st, ast.Assign) and about_names(st.value, derived):
+                derived |= {x.id for t in st.targets for x in ast.walk(t) if isinstance(x, ast.Name)}
+            if isinstance(st, ast.For) and about_names(st.iter, derived):
+                derived |= {x.id for x in ast.walk(st.target) if isinstance(x, ast.Name)}
+            if isinstance(st, ast.Expr) and isinstance(st.value, ast.Call) and isinstance(st.value.func, ast.Attribute) \
+                    and st.value.func.attr in ("add", "append", "update", "extend") and any(about_names(a_, derived) for a_ in st.value.args):
+                derived |= {x.id for x in ast.walk(st.value.func.value) if isinstance(x, ast.Name)}
+        if len(derived) == before:
+            break
+    def fact_about_names(fct) -> bool:
+        for atom in atoms_of(fct):
+            text = plain(atom)
+            if ".asname" in text or any(_re.search(rf"(?<![\w.]){_re.escape(d)}(?![\w])", text) for d in derived):
+                return True
+        return False
+    for c in sorts:
+        worlds = pa.worlds_at(c)
+        ok = bool(worlds) and all(any(fact_about_names(fct) for fct in w.facts) for w in worlds)
+        res.decide(ok, "R18.16", fn.loc(c), fn.fq, f"{short(c, 60)} # import statements of a block are reordered",
+                   "only after a test on the names the statements bind" if ok else
+                   "the statements of an import block are sorted whatever they bind: two imports of the same name (`from a import x` / `from b import x`) "
+                   "or a star import and another import swap places, and the name is bound to the other object")
+
 
 
 # ------------------------------------------------------------------------------------------------ R18.13
@@ -783,6 +833,7 @@ def _r18_6(prog: Program, res: Result) -> None:
 from ..selftest import Variant  # noqa: E402
 
 VARIANTS = [
+    Variant("same-name-imports-keep-their-order", "REPAIRED", "fixes", "        sorted_nodes = sorted(nodes, key=_import_group_key)\n", "        bound_objects = collections.defaultdict(set)\n        for node in nodes:\n            for alias in node.names:\n                origin = (getattr(node, \"level\", None), getattr(node, \"module\", None), alias.name)\n                bound_objects[(alias.asname or alias.name).split(\".\")[0]].add(origin)\n\n        if \"*\" in bound_objects or any(len(origins) > 1 for origins in bound_objects.values()):\n            continue\n\n        sorted_nodes = sorted(nodes, key=_import_group_key)\n", "R18.16"),
     Variant("opaque-star-imports-removed-again", "FIRE", "tracing", "        if _is_opaque_star_import(node):\n            continue  # No name was traced to it because what it binds is not known\n\n", "", "R18.15"),
     Variant("predicate-forgets-relative-imports", "FIRE", "tracing", "    if node.level or node.module is None:\n        return True\n\n    origin = _trace_module_source_file(node.module)\n    if origin in", "    if node.module is None:\n        return True\n\n    origin = _trace_module_source_file(node.module)\n    if origin in", "R18.15"),
     Variant("predicate-forgets-extension-modules", "FIRE", "tracing", "    if origin is None or Path(origin).suffix != \".py\":\n        return True\n\n    try:", "    if origin is None:\n        return True\n\n    try:", "R18.15"),
